@@ -291,13 +291,8 @@ def check_case(case, ctx):
         else:
             tol = k * (cert["scale"] + abs(cert["const"]))
             if cert["max_nonconst"] > tol:
-                nonsym = [m for m in ob.sent_lmis]
-                ex = oracles.residual_after_entry_equalities(cert["R"], nonsym)
-                if ex is not None and ex[0] <= tol:
-                    ctx.label("round:known-nonsymmetric-lmi-certificate")
-                else:
-                    ctx.fail("certificate-invalid-for-latest-solve", "round %d: identity residual %.3e (tol %.1e)"
-                             % (r, cert["max_nonconst"], tol))
+                ctx.fail("certificate-invalid-for-latest-solve", "round %d: identity residual %.3e (tol %.1e)"
+                         % (r, cert["max_nonconst"], tol))
             elif opts.get("ret", "dual") == "dual" and abs(ob.result - cert["const"]) > 1e-7 * (1 + abs(cert["const"]) + cert["scale"]):
                 ctx.fail("dual-value-not-identity-constant", "round %d: returned %.12g, identity constant %.12g"
                          % (r, ob.result, cert["const"]))
